@@ -755,3 +755,61 @@ UNITS += [
          note="StepGatherAction<%s>::step (host): one gather launch; %s" % (nm, "then every registered callback is invoked exactly once, after the gather" if P else "no callback is invoked at the pre-step point"))
     for nm, P in (("pre", 0), ("post", 1))
 ]
+
+
+# ---------------------------------------------------------------------------
+# launch_core (host kernel launcher): the executor is run exactly once for EVERY thread id, also when some threads throw
+# ---------------------------------------------------------------------------
+ALH = "src/celeritas/global/ActionLauncher.hh"
+ALH_MODEL = """
+#define NTHR 16
+size_type g_size;               /* state.size() */
+unsigned g_runs[NTHR];          /* ghost: executions per thread id */
+bool g_throws[NTHR];            /* ghost: whether the executor throws for that thread (any pattern) */
+unsigned g_captured;            /* ghost: exceptions captured by the MultiExceptionHandler */
+bool g_rethrown;                /* ghost: log_and_rethrow saw captured exceptions */
+size_type g_w;
+static bool EXEC_thread(size_type i) { __CPROVER_assert(i < g_size, "thread id < state size"); g_runs[i] += 1; return g_throws[i]; }
+static void HANDLER_capture(void) { g_captured += 1; }
+static void LOG_and_rethrow(void) { g_rethrown = (g_captured != 0); }
+"""
+ALH_RULES = [
+    Rule(r"MultiExceptionHandler capture_exception;", "", 1, note="exception collector -> ghost counter"),
+    Rule(r"#if defined\(_OPENMP\) && CELERITAS_OPENMP == CELERITAS_OPENMP_TRACK\s*#\s*pragma omp parallel for\s*#endif", "", 1, note="OpenMP pragma dropped: iterations treated sequentially (CELERITAS_OPENMP is not 'track' in this build)"),
+    Rule(r"state\.size\(\)", "g_size", "*", note="state size"),
+    Rule(r"CELER_TRY_HANDLE_CONTEXT\(\s*execute_thread\(ThreadId\{i\}\),\s*capture_exception,\s*KernelContextException\(.*?label\)\);", "if (EXEC_thread(i)) { HANDLER_capture(); }   /* try { execute_thread(ThreadId{i}) } catch (...) { capture_exception(context) } */", 1, flags=16,
+         note="try/catch macro -> executor returns whether it threw; the handler captures and the loop goes on"),
+    Rule(r"log_and_rethrow\(std::move\(capture_exception\)\);", "LOG_and_rethrow();", 1, note="rethrow at the end -> ghost flag"),
+    LoopContracts(["    __CPROVER_assigns(i, g_captured, __CPROVER_object_whole(g_runs))\n"
+                   "    __CPROVER_loop_invariant(i <= size && size == g_size && g_runs[g_w] == (g_w < i ? 1 : 0) && g_captured <= i && (g_captured == 0) == !THROWN_BELOW(i))\n"
+                   "    __CPROVER_decreases(size - i)\n"]),
+]
+
+
+def build_launch_core(ctx):
+    pc = ctx.func(ALH, r"^void launch_core\(std::string_view label,", ALH_RULES, generic=False, name="launch_core (host)")
+    tb = " || ".join("(%d < (n) && g_throws[%d])" % (k, k) for k in range(16))
+    return (HDR + ALH_MODEL + "#define THROWN_BELOW(n) (" + tb + ")\n" + """
+void ALH_launch_core(void)
+__CPROVER_requires(g_size <= NTHR && g_w < NTHR && g_runs[g_w] == 0 && g_captured == 0 && !g_rethrown)
+__CPROVER_assigns(g_captured, g_rethrown, __CPROVER_object_whole(g_runs))
+/* every thread id below the state size is executed exactly once -- whether or not other threads throw -- and none beyond */
+__CPROVER_ensures(g_runs[g_w] == (g_w < g_size ? 1 : 0))
+/* an exception in any thread is reported after ALL threads have run */
+__CPROVER_ensures(g_rethrown == THROWN_BELOW(g_size))
+{""" + pc.body + """}
+void h_alh(void)
+{
+    for (unsigned k = 0; k < NTHR; ++k) { unsigned b; g_throws[k] = (b != 0); }
+    ALH_launch_core();
+    VERIF_CANARY();
+}
+""")
+
+
+UNITS += [
+    Unit("c17_launch_core", build_launch_core, "h_alh", enforce="ALH_launch_core", loop_contracts=True, timeout=300, unwind=18, backend=["sat", "kissat", "cvc5"],
+         must_have=[r"ALH_launch_core.postcondition", r"loop_invariant_step"], checks=CHECKS,
+         assumptions=["<= 16 track slots in the harness (loop closed by a loop contract)", "OpenMP parallel-for treated sequentially (not the 'track' OpenMP mode in this build); exceptions modelled as a per-thread flag"],
+         note="launch_core (host kernel launcher used by every action): the executor runs exactly once for every thread id in [0, state size), also when some executions throw; the captured exceptions are rethrown only after the loop"),
+]
